@@ -562,7 +562,7 @@ def run(ctx, only_cases=None):
     except BuildError as e:
         hx_exe = None
         broken.append("harness does not compile against the current tree: %s" % str(e)[-400:])
-    n = 2400 if quick else 250000
+    n = 2400 if quick else 180000
     if broken:
         n *= 3          # something no longer checks: search harder for a concrete failing input
     cases = corpus_cases() if only_cases is None else list(only_cases)
